@@ -36,6 +36,9 @@ ProvOf(x) == IF x[2] = "prov:a2" THEN <<"a2">> ELSE <<"a2", "a3">>
 GenChain == [c \in Sub |-> IF c = "B" THEN "A" ELSE IF c = "C" THEN "B" ELSE "A"]
 \* B under A; C and F (a child that is not hosted here) under B
 GenForeign == [c \in Sub |-> IF c = "B" THEN "A" ELSE "B"]
+\* B under A, C under B, F under C: the parent of the child that is not hosted
+\* here can lose its resource class and get a new one
+GenForeign2 == [c \in Sub |-> IF c = "B" THEN "A" ELSE IF c = "C" THEN "B" ELSE "C"]
 \* (with Sub = {"B", "C", "C2"} and CaOf = SecondSlots the same function makes
 \* A the second parent of C: C holds resources from B and from A directly)
 
@@ -114,7 +117,7 @@ GenApiAny ==
               /\ Api([a |-> "AddForeign", c |-> f, p |-> ParentOf[f], res |-> SetToSeq(R)])
          \/ FList(f) /\ Api([a |-> "FList", c |-> f])
          \/ \E x \in {"cur", "new"} :
-              \/ FRevoke(f, x) /\ Api([a |-> "FRevoke", c |-> f, x |-> x])
+              \/ FRevoke(f, x, FALSE) /\ Api([a |-> "FRevoke", c |-> f, x |-> x])
               \* (limits within the entitlement -- within the offer or not --,
               \* no limit, and one that names everything)
               \/ FCall(f) /\ \E L \in (SUBSET ent[f]) \cup {Res}, nl \in BOOLEAN :
